@@ -264,7 +264,16 @@ class Polynomial(Contract):
         if isinstance(v, IndetElem):
             return v
         if isinstance(v, Arr):
-            return Poly(ex.ctx, ex.ctx.fresh("const"), shape=v.shape, region=Region("fresh", "polynomial(array)"))
+            # number/array input kind (proved above): the single constant term whose coefficient is the data; B10: it denotes
+            # the constant with that value at every position
+            from contracts.division import pconst
+            from engine.polymodel import _num
+            r = Poly(ex.ctx, ex.ctx.fresh("const"), shape=v.shape, region=Region("fresh", "polynomial(array)"))
+            ex.ctx.assume(r.wf(ex.ctx))
+            if v.kind == "real":
+                ex.ctx.assume(ex.ctx.forall_idx(lambda i: r.val(i) == pconst(_num(v.elem(i))), v.shape))
+            r.constant_of = v
+            return r
         if isinstance(v, (int, float)) or (isinstance(v, z3.ArithRef)):
             return Poly(ex.ctx, ex.ctx.fresh("const"), shape=shp0, region=Region("fresh", "polynomial(number)"))
         raise U("polynomial(...) of this input kind", node)
